@@ -12,6 +12,13 @@ pub mod parallel;
 pub mod rans;
 pub mod simd_huffman;
 
+/// Largest output any decompressor in this crate will produce from one input.
+///
+/// Length fields inside compressed data are untrusted; without a ceiling a few crafted bytes
+/// can demand gigabytes of output. The value matches the limit already used for ZSTD in
+/// `compression::ZstdCompressor::decompress`.
+pub const MAX_DECOMPRESSED_SIZE: usize = 100 * 1024 * 1024;
+
 // Re-export main types
 pub use bit_ops::{BitOps, BitOpsConfig, EntropyBitOps, BitOpsStats};
 pub use context::{EntropyContext, EntropyContextConfig, ContextBuffer, EntropyResult, ContextStats};
